@@ -15,6 +15,8 @@ CONSTANTS
   FailSets <- MCFailSets
   TrialReset = FALSE
   FinalReset = TRUE
+  CompRebases = FALSE
+  MaxUser = 0
 INVARIANT TypeOK
 INVARIANT RowsTrue
 CHECK_DEADLOCK FALSE
